@@ -522,6 +522,34 @@ fn walk(bytes: &[u8]) -> String {
         format!("ok:{}", v.iter().count())
     });
     simple!("SE", MinidumpSoftErrors, |v| { format!("ok:{}", v.as_ref().len()) });
+
+    // ---- round 4: queries tied to C01/QModel.v (memory_range, get_crash_address, last_error address arithmetic)
+    let bits = |it: &mut dyn Iterator<Item = bool>| it.map(|b| if b { '1' } else { '0' }).collect::<String>();
+    simple!("RM", MinidumpMemoryList, |l| { format!("ok:{}", bits(&mut l.iter().take(8).map(|r| r.memory_range().is_some()))) });
+    simple!("RI", MinidumpMemoryInfoList, |l| { format!("ok:{}", bits(&mut l.iter().take(8).map(|r| r.memory_range().is_some()))) });
+    simple!("CA", MinidumpException, |e| {
+        format!(
+            "ok:{}:{}:{}:{}",
+            e.get_crash_address(Os::Windows, Cpu::X86),
+            e.get_crash_address(Os::Windows, Cpu::X86_64),
+            e.get_crash_address(Os::Linux, Cpu::X86),
+            e.get_crash_address(Os::Linux, Cpu::X86_64)
+        )
+    });
+    simple!("TE", MinidumpThreadList, |tl| {
+        let probe = [1u8, 0, 0, 0];
+        let mut v = vec![];
+        for t in tl.threads.iter().take(4) {
+            for (w, cpu) in [(4u64, Cpu::X86), (8u64, Cpu::X86_64)] {
+                let base = t.raw.teb.wrapping_add(13 * w);
+                let desc = md::MINIDUMP_MEMORY_DESCRIPTOR { start_of_memory_range: base, memory: md::MINIDUMP_LOCATION_DESCRIPTOR { data_size: 4, rva: 0 } };
+                let region = MinidumpMemory { desc, base_address: base, size: 4, bytes: &probe, endian: scroll::LE };
+                let list = UnifiedMemoryList::Memory(MinidumpMemoryList::from_regions(vec![region]));
+                v.push(t.last_error(cpu, &list).is_some());
+            }
+        }
+        format!("ok:{}", bits(&mut v.into_iter()))
+    });
     f.join(";")
 }
 
